@@ -179,6 +179,27 @@ def gen_race_rounds(rng, n, rounds):
              "race_rounds": rounds, "kind": "race-rounds"} for _ in range(n)]
 
 
+def gen_pair_rounds(rng, n, rounds):
+    """two producers race for the last free slot of a stalled queue (a stale `is_full()` fast path
+    would drop the NEWEST entry there)"""
+    return [{"cap": rng.choice([1, 2, 2, 3]), "boxed": rng.random() < 0.5, "flush_us": rng.choice([1000, 59_000_000]),
+             "producers": [], "results": {}, "flushers": [], "end": "drop", "recorder": True,
+             "pair_rounds": rounds, "kind": "pair-rounds"} for _ in range(n)]
+
+
+def gen_stall_shutdown(rng, n):
+    """the stream is stalled for longer than shutdown_timeout while > 32 entries are queued and the
+    handle is dropped during the stall; afterwards the stream is fast: everything must be drained"""
+    out = []
+    for i in range(n):
+        st = rng.choice([300, 500])
+        out.append({"cap": 512, "boxed": rng.random() < 0.5, "flush_us": rng.choice([1000, 50000]),
+                    "producers": [{"n": rng.randint(80, 200), "pace_us": 0}], "results": {}, "flushers": [],
+                    "stall": {"k": 1}, "shutdown_timeout_ms": st, "hold_stall_ms": st + 400, "end": "drop",
+                    "kind": "stall-shutdown"})
+    return out
+
+
 def gen_count_only(rng, n, per):
     out = []
     for i in range(n):
@@ -472,7 +493,7 @@ def run(prop, tier):
         "TLC results are exhaustive only within the constants of the MC_*.cfg files; larger instances only through recorded traces",
         "termination / completion is observed with a 10 s budget",
     ]
-    vlib.cargo_build(["bq"])
+    vlib.cargo_build(["bq", "gs"] if prop == "C05" else ["bq"])
     # 1. the implementation-shaped model refines the property layer (exhaustive, small constants)
     quick_mc = {"C01": ["MC_q_c01.cfg"], "C04": ["MC_q_c04.cfg"], "C05": ["MC_q_c05.cfg", "MC_live.cfg"],
                 "C09": ["MC_q_c09a.cfg", "MC_q_c09b.cfg"]}
@@ -487,9 +508,9 @@ def run(prop, tier):
     if prop == "C01":
         scen += gen_forget_slowflush(rng, 6 if q else 60)
     if prop == "C05":
-        scen += gen_forget_slowflush(rng, 6 if q else 60) + gen_flush_faults(rng, 4 if q else 40)
+        scen += gen_forget_slowflush(rng, 6 if q else 60) + gen_flush_faults(rng, 4 if q else 40) + gen_stall_shutdown(rng, 3 if q else 20)
     if prop == "C09":
-        scen += gen_race_rounds(rng, 24 if q else 200, 50) + gen_count_only(rng, 3 if q else 30, 2400 if q else 12000)
+        scen += gen_race_rounds(rng, 24 if q else 200, 50) + gen_pair_rounds(rng, 10 if q else 80, 60) + gen_count_only(rng, 3 if q else 30, 2400 if q else 12000)
     for i, s in enumerate(scen):
         s["id"] = i + 1
         s.setdefault("seed", chk.seed * 100000 + i)
@@ -504,6 +525,18 @@ def run(prop, tier):
             prods = s["producers"]
             s["results"] = _results(rng, prods, 0.4, 0.1)
         run_recorded(chk, prop, sub, tag="sub", subscriber=True)
+        # ... and a subscriber installed WHILE the queue lives (once per process, so one scenario per run)
+        for j in range(1 if q else 6):
+            mid = gen_c01(rng, 1)[0]
+            mid.update({"id": 6000 + j, "seed": chk.seed * 100000 + 6000 + j, "end": "drop", "after_sub": 6,
+                        "results": dict(_results(rng, mid["producers"], 0.5, 0.0), **{"80001": "val", "80003": "val", "80005": "val"}),
+                        "flushers": [], "permille": 0})
+            run_recorded(chk, prop, [mid], tag=f"submid{j}")
+    if prop == "C05":
+        # the attach handle of a global sink backed by a queue: appenders racing with the handle drop
+        import chk_globalsink as G
+        races = G.gen_races(random.Random(chk.seed * 31 + 5), 12 if q else 200)
+        G.run_T(chk, prop, races, tag="detach")
     # 3. TLC schedules replayed into the real code
     run_scheduled(chk, prop, tier)
     # 4. the waker protocol, stepped through the real WakerTracker
